@@ -132,3 +132,40 @@ def rfi_run(eps, cut, xp, yp, n, m, hint, qs):
         except Fault:
             out.append(None)
     return out, hint
+
+
+def window(eps, xp, n, m, x, hint):
+    """(base, cur) of the m-point window the model selects for x, or None when the call returns
+    early (n < 2 or a knot test); same arithmetic as rfi_full."""
+    if n < 1 or n < m or m < 1:
+        raise Fault("assert")
+    if n < 2:
+        return None
+    s = 0 if hint < 0 else (n - 2 if hint > n - 2 else hint)
+    if x < rd(xp, s):
+        while s > 0 and x < rd(xp, s):
+            s -= 1
+    else:
+        while s < n - 2 and x > rd(xp, s + 1):
+            s += 1
+    dx1 = abs(x - rd(xp, s))
+    dx2 = abs(x - rd(xp, s + 1))
+    if dx1 <= eps or dx2 <= eps:
+        return None
+    nearest = s if (dx1 <= dx2 or m < 2) else s + 1
+    b = nearest - quot(m - 1, 2) if m % 2 == 1 else s - (quot(m, 2) - 1)
+    base = 0 if b < 0 else (n - m if n < b + m else b)
+    return base, nearest - base
+
+
+def amplification(tr):
+    """Rough bound on how much the recurrence amplifies rounding errors: product over the recorded
+    steps of max(1, sqrt((|a|^2 + |b|^2) / |den|^2)), den = a - b."""
+    amp = 1.0
+    for den, a, b in tr:
+        s = nrm(a) + nrm(b)
+        d = nrm(den)
+        if s == 0 or d == 0:
+            continue
+        amp *= max(1.0, float(s / d) ** 0.5)
+    return amp
